@@ -386,6 +386,9 @@ func isPure(c *core.Ctx, f *types.Func, depth int) bool {
 	if f.Pkg() == nil {
 		return true
 	}
+	if _, ok := pureByReading[core.FullName(f)]; ok {
+		return true
+	}
 	switch f.Pkg().Path() {
 	case "strings", "fmt", "strconv", "math", "unicode", "errors", "path", "path/filepath", "regexp", "sort", "bytes", "math/big", "reflect":
 		if f.Pkg().Path() == "fmt" && (strings.HasPrefix(f.Name(), "Fprint") || strings.HasPrefix(f.Name(), "Print")) {
